@@ -27,7 +27,7 @@ func raw(s string) *J { // literal number / keyword helper
 	return jNum(s)
 }
 
-var stringPool = []string{"", "x", "abc", "héllo", "a\"b\\c", "\u0000", "<>&", " ", "0x3", "2.0", "ſ", "\U0001F44D", "a, b", "id", "\x01?"}
+var stringPool = []string{"", "x", "abc", "héllo", "a\"b\\c", "\u0000", "<>&", " ", "0x3", "2.0", "ſ", "\U0001F44D", "a, b", "id"}
 
 func (g *Gen) str() string {
 	if g.r.Chance(1, 10) {
